@@ -1571,3 +1571,107 @@ func ruleExtNext(c *Ctx) {
 	}
 	c.Floor("extension construction sites in the structural code", n, 8)
 }
+
+// ---------------------------------------------------------------------------
+// ring-slot-index (C20): the block queue is a ring indexed by `indexToPosition(index)`. Wherever a slot is computed
+// for an index expression E and the element found in that slot is compared with an index expression F, E and F are
+// the same quantity (same base, same constant offset): a clean-up that looks at the slot of i+1 and compares the
+// element's index with i never matches, the element stays counted in `len`, the free capacity reported to the
+// block requester shrinks with every block consensus adds itself, and at zero the node stops asking for blocks.
+func ruleRingSlotIndex(c *Ctx) {
+	pk := c.P.Pkg("pkg/network/bqueue")
+	if pk == nil {
+		c.Lost("ring-slot-index.anchor", "package bqueue not found")
+		return
+	}
+	n := 0
+	for _, fd := range c.P.AllFuncDecls() {
+		if fd.Pkg != pk || fd.Decl.Body == nil {
+			continue
+		}
+		f := c.P.NewFuncCFG(fd)
+		info := fd.Pkg.TypesInfo
+		// slot locals: p := <recv>.indexToPosition(E)
+		slots := map[types.Object]ast.Expr{}
+		ast.Inspect(fd.Decl.Body, func(x ast.Node) bool {
+			as, ok := x.(*ast.AssignStmt)
+			if !ok || len(as.Lhs) != 1 || len(as.Rhs) != 1 {
+				return true
+			}
+			call, ok := ast.Unparen(as.Rhs[0]).(*ast.CallExpr)
+			if !ok || len(call.Args) != 1 {
+				return true
+			}
+			if se, ok := ast.Unparen(call.Fun).(*ast.SelectorExpr); !ok || se.Sel.Name != "indexToPosition" {
+				return true
+			}
+			if id, ok := as.Lhs[0].(*ast.Ident); ok {
+				if o := info.ObjectOf(id); o != nil {
+					slots[o] = call.Args[0]
+				}
+			}
+			return true
+		})
+		if len(slots) == 0 {
+			continue
+		}
+		ast.Inspect(fd.Decl.Body, func(x ast.Node) bool {
+			be, ok := x.(*ast.BinaryExpr)
+			if !ok {
+				return true
+			}
+			switch be.Op {
+			case token.EQL, token.NEQ, token.LSS, token.GTR, token.LEQ, token.GEQ:
+			default:
+				return true
+			}
+			for _, pair := range [][2]ast.Expr{{be.X, be.Y}, {be.Y, be.X}} {
+				call, ok := ast.Unparen(pair[0]).(*ast.CallExpr)
+				if !ok {
+					continue
+				}
+				se, ok := ast.Unparen(call.Fun).(*ast.SelectorExpr)
+				if !ok || se.Sel.Name != "GetIndex" {
+					continue
+				}
+				ie, ok := ast.Unparen(se.X).(*ast.IndexExpr)
+				if !ok {
+					continue
+				}
+				pid, ok := ast.Unparen(ie.Index).(*ast.Ident)
+				if !ok {
+					continue
+				}
+				slotExpr, ok := slots[info.ObjectOf(pid)]
+				if !ok {
+					continue
+				}
+				// the other side must not itself be an element's index (element vs element comparisons are about order)
+				if oc, ok := ast.Unparen(pair[1]).(*ast.CallExpr); ok {
+					if ose, ok := ast.Unparen(oc.Fun).(*ast.SelectorExpr); ok && ose.Sel.Name == "GetIndex" {
+						// compare with the slot expression if that is the same call
+						if types.ExprString(slotExpr) == types.ExprString(pair[1]) {
+							n++
+							c.OK(fmt.Sprintf("ring-slot-index.%s#%d", FuncKey(fd.Obj), n), c.P.Pos(be.Pos()), "the slot was computed from the very index the element is compared with")
+						}
+						continue
+					}
+				}
+				b1, o1, ok1 := linearForm(f, slotExpr, 0)
+				b2, o2, ok2 := linearForm(f, pair[1], 0)
+				if !ok1 || !ok2 || b1 != b2 {
+					continue // not comparable as base+offset of one quantity
+				}
+				n++
+				key := fmt.Sprintf("ring-slot-index.%s#%d", FuncKey(fd.Obj), n)
+				if o1 == o2 {
+					c.OK(key, c.P.Pos(be.Pos()), "the element in the slot of "+types.ExprString(slotExpr)+" is compared with the same index")
+				} else {
+					c.Fail(key, c.P.Pos(be.Pos()), fmt.Sprintf("%s looks at the ring slot of index %s and compares the element's index with %s: the two differ by %d, the comparison can never hold for the element that belongs there", FuncKey(fd.Obj), types.ExprString(slotExpr), types.ExprString(pair[1]), o1-o2))
+				}
+			}
+			return true
+		})
+	}
+	c.Floor("slot/index comparisons in the block queue", n, 1)
+}
